@@ -150,7 +150,10 @@ class StrFlow:
                 src = self._group_of(e.value, e.slice.value)
                 if src is not None:
                     return src
-            return self.prov(e.value)
+            inner = self.prov(e.value)
+            if isinstance(e.slice, ast.Slice):
+                return {Prov(p.decodes, p.lowered, p.source, p.steps + (f'[{unparse(e.slice)}]',)) for p in inner}
+            return inner
         if isinstance(e, ast.Call):
             cn = call_name(e)
             f = e.func
@@ -173,7 +176,8 @@ class StrFlow:
             if cn in ('cast', 'typing.cast', 'str') and e.args:
                 return self.prov(e.args[-1])
             if isinstance(f, ast.Attribute) and f.attr in PRESERVING_METHODS:
-                return self.prov(f.value)
+                return {Prov(p.decodes, p.lowered, p.source, p.steps + (f'.{f.attr}({", ".join(unparse(a) for a in e.args)})',))
+                        for p in self.prov(f.value)}
             if isinstance(f, ast.Attribute) and f.attr == 'lower' and not e.args:
                 return {Prov(p.decodes, True, p.source, p.steps + ('str.lower',)) for p in self.prov(f.value)}
             # package function / method: inline its return expressions
